@@ -584,7 +584,7 @@ func (x *Exec) special(fr *frame, st *State, f *ssa.Function, full string, args 
 		return []Val{freshVal(x.c, "sprintf", types.Typ[types.String])}, true
 	case "errors.Is":
 		a, b := args[0], args[1]
-		r := x.c.Fresh("errorsIs", SBool)
+		r := x.pureCall(f, args, st)[0].L[0] // same uninterpreted function the specs use
 		// errors.Is(nil, x) is false for non-nil x; errors.Is(e, e) is true
 		x.c.Assume(Imp(And(Eq(a.L[0], BVLit(0, 32)), Not(Eq(b.L[0], BVLit(0, 32)))), Not(r)))
 		x.c.Assume(Imp(And(Eq(a.L[0], b.L[0]), Eq(a.L[1], b.L[1])), r))
